@@ -442,7 +442,7 @@ class Text(Suite):
     oeq = "tobs_eqb"
     spec = "tspec_ok"
     kf = "tkf"
-    kf_ids = {1: "F7a", 2: "F7b", 4: "F7d", 5: "F7e"}
+    kf_ids = {1: "F7a", 2: "F7b", 4: "F7d", 5: "F7e", 7: "F7h"}
     corr = ("URIRef.n3, BNode.n3, Variable.n3, Literal.n3/_literal_n3/_quote_encode, util.from_n3, "
             "__reduce__ of the four classes + constructors")
     quick_n = 900
@@ -529,9 +529,9 @@ class Text(Suite):
                 ok = False
                 why.append("turtle: " + type(e).__name__)
             obs["flags"][1] = ok
-        # read back through SPARQL (BIND and VALUES); see notes/C07.md for the three exclusions
+        # read back through SPARQL (BIND and VALUES); see notes/C07.md for the two exclusions
         respelled = j[0] == "L" and not n.startswith(t._quote_encode())
-        if (j[0] == "I" or (j[0] == "L" and "\t" not in j[1] and "\\u" not in j[1] and "\\U" not in j[1] and not respelled)):
+        if (j[0] == "I" or (j[0] == "L" and "\\u" not in j[1] and "\\U" not in j[1] and not respelled)):
             ok = True
             for q in ("SELECT ?v WHERE { BIND(%s AS ?v) }", "SELECT ?v WHERE { VALUES ?v { %s } }"):
                 try:
